@@ -209,4 +209,28 @@ CLAIMS = {
         "note": "Undecided: integer charges, rotational invariances, trace -1, agreement of the two tensor routes (they share _N), "
                 "the -|M| sum rule numerically.",
     },
+    "C18": {
+        "technique": "static analysis: typestate/write-site audit of the rotator's three state slots, operand order of the "
+                     "(non-commutative) rotation product, read-set rule (no read of the rotated field inside rotate), term normal "
+                     "form of the forward/backward rotation pairing and of the centred bounding box, guard dominance in the constructor",
+        "level": _GEN + "For C18: unfit fields are refused before the rotator keeps them; only rotate/clear_rotation write the "
+                 "rotation state and clear_rotation resets both parts; new rotations are composed on the left and every rotation "
+                 "starts from the original field; vectors use the rotation, positions its inverse, component reordering is undone "
+                 "by argsort; the target region is centre -/+ half the rotated extents; outside values are zero; labels and mapping "
+                 "are kept. (Narrow structural claim.)",
+        "note": "Undecided: everything numerical - interpolation weights, which cells are 'one cell inside', resolution choice, "
+                "agreement with the lattice quarter turn. Trusted: scipy Rotation composition/apply/inv, RegularGridInterpolator.",
+    },
+    "C20": {
+        "technique": "static analysis: effect/alias analysis with inter-procedural mutation summaries (helpers that write into their "
+                     "argument) for purity, term normal form of extent/labels/positions, transposition-count rule on every array "
+                     "handed to matplotlib, must-pass-through (dominance) of the filter before each draw call, guard dominance",
+        "level": _GEN + "For C20: no write in any plotting method or helper can reach self.field's arrays (every array that is "
+                 "filtered or normalised in place is a copy); extent, axis labels and arrow/contour positions use axis 0 for x and "
+                 "axis 1 for y divided by the multiplier; every 2-d array is transposed exactly once; arrow components come from "
+                 "the axis mapping or the given labels; values pass the validity/user filter before every draw call and hidden "
+                 "cells become NaN/transparent; unfit fields and filter/colour/lightness fields are refused.",
+        "note": "Undecided: what matplotlib renders. Noted: a user-supplied lightness_field is normalised in place (not the plotted "
+                "field, outside the letter of the property).",
+    },
 }
